@@ -137,6 +137,11 @@ class Run(object):
 
     # -- finish
     def finish(self):
+        try:
+            from vlib import contracted
+            contracted.record(self)
+        except Exception as ex:
+            self.notes.append('contract table not recorded: %s' % ex)
         kf = [r for r in load_known_findings() if r.get('property') == self.pid]
         def kf_match(oid):
             for r in kf:
